@@ -179,7 +179,7 @@ def main(args):
         print("selftest determinism: %s" % ("ok" if a == b else "FAILED"))
         for f in fronts:
             front, st, gs = f.get(300)
-            ok = st in (201, 204) and gs == 200
+            ok = st in (200, 201, 204) and gs == 200
             print("selftest front %s: PUT %s GET %s %s" % (front, st, gs, "ok" if ok else "FAILED"))
             if not ok:
                 failures.append("front %s: PUT %s / GET %s" % (front, st, gs))
@@ -194,7 +194,7 @@ def main(args):
             failures.append("E4 replay diverged")
         try:
             code, n, labels = e5.get(300)
-            ok = code in (201, 204) and "read-body" in labels and n >= 2
+            ok = code in (200, 201, 204) and "read-body" in labels and n >= 2
             print("selftest E5 attachment (PUT: %s, %d suspension points %s): %s" % (code, n, labels, "ok" if ok else "FAILED"))
             if not ok:
                 failures.append("E5 does not see the suspension points of a PUT (body read + thread hand-off)")
